@@ -573,7 +573,7 @@ fn check_echo(case: &Case, resp: &Resp, local: SocketAddr) -> Option<(String, Va
 }
 
 /// `h2`: the request context's URI is in absolute form (scheme + authority + target)
-fn check_echo_ex(case: &Case, resp: &Resp, local: Option<SocketAddr>, h2: bool) -> Option<(String, Value)> {
+pub fn check_echo_ex(case: &Case, resp: &Resp, local: Option<SocketAddr>, h2: bool) -> Option<(String, Value)> {
     if resp.status != 200 {
         let body = String::from_utf8_lossy(&resp.body).to_string();
         let tag = case.class.split('|').nth(1).unwrap_or("");
